@@ -239,11 +239,13 @@ func (prom *Prometheus) requestContext(ctx context.Context) (context.Context, co
 
 func queryWorker(prom *Prometheus, queries chan queryRequest) {
 	for job := range queries {
+		verifJob("deq", job)
 		job.result <- processJob(prom, job)
 	}
 }
 
 func processJob(prom *Prometheus, job queryRequest) queryResult {
+	defer verifJob("reply", job)
 	cacheKey := job.query.CacheKey()
 	if prom.cache != nil {
 		if cached, ok := prom.cache.get(cacheKey, job.query.Endpoint()); ok {
@@ -259,7 +261,9 @@ func processJob(prom *Prometheus, job queryRequest) queryResult {
 	prometheusQueriesRunning.WithLabelValues(prom.name, job.query.Endpoint()).Inc()
 
 	prom.rateLimiter.Take()
+	verifJob("start", job)
 	result := job.query.Run()
+	verifJobEnd(job, result.err)
 	prometheusQueriesRunning.WithLabelValues(prom.name, job.query.Endpoint()).Dec()
 
 	if result.err != nil {
